@@ -17,7 +17,8 @@ RULE = ("files: generated topologies of C15's generator (repeated/permuted secti
         "(1..8 sections drawn with repetition from atoms/bonds/pairs/constraints/moleculetype/plain names incl. the "
         "substring names 'type','m','' and a name containing ']'; header text; content lines with no/empty/multiple/"
         "'#'-leading trailing comments; comment-only, blank, preprocessor lines; missing final newline; CRLF); each file is "
-        "read, written, re-read, written again. Lines/tokens: random ASCII lines (incl. control white space) through "
+        "read, written, re-read, written again; call histories every run: 3-6 successive different topologies (incl. pairs of "
+        "equal byte length) written to ONE input path and round-tripped through ONE output path back to back. Lines/tokens: random ASCII lines (incl. control white space) through "
         "ItpSection.parse_line for 9 section names, int(), float(), split(), strip(), file iteration. The 16 shipped "
         "topologies (two DNA files in thorough). A case is non-trivial when its text is distinct.")
 
@@ -76,8 +77,9 @@ def impl_abs(f):
     return out
 
 
-def oracle_file(path):
-    """the property on one well-formed file; returns failed clauses"""
+def oracle_file(path, out=None):
+    """the property on one well-formed file; returns failed clauses.  out: write to THIS path (both the first and the
+    second write; call histories through one scratch output name) instead of fresh names"""
     from gaddlemaps.parsers import ItpFile, read_topology
     text = ic.read_text(path)
     want = spec_abs(text)
@@ -88,7 +90,7 @@ def oracle_file(path):
         return ["first read raised %s: %s" % (type(ex).__name__, str(ex)[:80])]
     if impl_abs(a) != want:
         bad.append("first parse is not the file's content: " + _diff(want, impl_abs(a)))
-    q = molgen.fresh_path("itp", "w")
+    q = out or molgen.fresh_path("itp", "w")
     a.write(q)
     text2 = ic.read_text(q)
     if spec_abs(text2) != want:
@@ -104,7 +106,7 @@ def oracle_file(path):
     ta, tb = ic.obs_topology(path), ic.obs_topology(q)
     if ta != tb:
         bad.append("read_topology differs: %s vs %s" % (str(ta)[:100], str(tb)[:100]))
-    q2 = molgen.fresh_path("itp", "w")
+    q2 = out or molgen.fresh_path("itp", "w")
     b.write(q2)
     text3 = ic.read_text(q2)
     if spec_abs(text3) != want:
@@ -229,7 +231,50 @@ def ascii_only(s):
     return all(ord(c) < 128 for c in s)
 
 
+def check_history(ctx, rs, nseq, cases=None, meta=None, label="same-path history"):
+    """call HISTORIES: successive different topologies (pairs of equal byte length included) are written to ONE input
+    path and round-tripped through ONE output path back to back, without sleeping; every read must give the content
+    the file has at that moment.  With cases/meta: every step also becomes K cases.  Returns failing steps."""
+    fails = 0
+    for _ in range(nseq):
+        src = molgen.fresh_path("itp", "scratch_in")
+        out = molgen.fresh_path("itp", "scratch_out")
+        texts = []
+        for step, (kind, text, _truth) in enumerate(ic.variant_sequence(rs)):
+            ic.write_text(text, path=src)
+            texts.append(text)
+            if cases is not None:
+                file_cases(src, cases, meta, "history:" + kind, out=out)
+            bad = oracle_file(src, out=out)
+            ctx.count(("hist", text, step), step > 0)
+            if bad:
+                fails += 1
+                ctx.violation("%s, step %d (%s) through one input and one output path: %s" % (label, step, kind, "; ".join(bad[:3])),
+                              {"kind": "history", "texts": texts}, key="history")
+                break
+    return fails
+
+
+def replay_history(texts):
+    bad = []
+    for _ in range(5):        # a second boundary between two writes may hide a stale-cache effect: retry on fresh names
+        src = molgen.fresh_path("itp", "scratch_in")
+        out = molgen.fresh_path("itp", "scratch_out")
+        for text in texts:
+            ic.write_text(text, path=src)
+            bad = oracle_file(src, out=out)
+        if bad:
+            return bad
+    return bad
+
+
 # ------------------------------------------------------------------ corpus
+WATER_A = ("; water-like test molecule\n[ moleculetype ]\n; name nrexcl\nSOL 2\n[ atoms ]\n"
+           "; nr type resnr residue atom cgnr charge mass\n1 OW 1 SOL OW  1 -0.820 15.9994 ; spc\n"
+           "2 HW 1 SOL HW1 1  0.410  1.0080\n3 HW 1 SOL HW2 1  0.410  1.0080\n[ bonds ]\n"
+           "1 2 1 0.1 345000 ; O-H\n1 3 1 0.1 345000 ; O-H\n")
+WATER_B = WATER_A.replace("-0.820", "-0.834").replace(" 0.410", " 0.417").replace("HW2", "HX2").replace("; spc", "; tip")
+
 CORPUS = [
     ("D6 repeated section name", "[ moleculetype ]\nM 1\n[ atoms ]\n1 X 1 R A 1\n2 X 1 R B 2\n[ dihedrals ]\n1 2 1 2 9\n"
                                  "[ bonds ]\n1 2\n[ dihedrals ]\n2 1 2 1 4 ; improper\n[ dihedrals ]\n; third\n"),
@@ -253,11 +298,22 @@ def corpus(ctx):
         S["corpus"] += 1
         if bad:
             ctx.violation("%s: %s" % (label, "; ".join(bad[:3])), {"kind": "itp_text", "text": text}, key="corpus")
+    # call-history witnesses: two equal-length variants round-tripped one after the other through the SAME output path
+    # (a line cache revalidated by size + whole-second mtime hands back the other topology), then generated sequences
+    for _ in range(3):
+        bad = replay_history([WATER_A, WATER_B, WATER_A])
+        S["corpus"] += 1
+        if bad:
+            ctx.violation("equal-length variants through one scratch path: " + "; ".join(bad[:3]),
+                          {"kind": "history", "texts": [WATER_A, WATER_B, WATER_A]}, key="history")
+            break
+    check_history(ctx, ctx.np_rng("corpus"), 3, label="corpus history")
 
 
 # ------------------------------------------------------------------ K
-def file_cases(path, cases, meta, kind, depth=2):
-    """read -> write -> read -> write: one case per read (text, ItpFile observation, written text, read_topology)"""
+def file_cases(path, cases, meta, kind, depth=2, out=None):
+    """read -> write -> read -> write: one case per read (text, ItpFile observation, written text, read_topology);
+    out: every write goes to this one path"""
     p = path
     for k in range(depth):
         text = ic.read_text(p)
@@ -267,7 +323,7 @@ def file_cases(path, cases, meta, kind, depth=2):
         written = ""
         q = None
         if f is not None:
-            q = molgen.fresh_path("itp", "w")
+            q = out or molgen.fresh_path("itp", "w")
             f.write(q)
             written = ic.read_text(q)
         ot = ic.obs_topology(p)
@@ -293,6 +349,8 @@ def correspondence(ctx):
         if bad:
             ctx.violation("generated file: " + "; ".join(bad[:3]), {"kind": "itp_text", "text": ic.read_text(path)}, key="roundtrip")
     ctx.sample({"generated_file": meta[0]["text"][:700]})
+    check_history(ctx, rs, ctx.n(5, 40), cases=cases, meta=meta)
+    hist["history_sequences"] = ctx.n(5, 40)
     for label, text in CORPUS:
         file_cases(ic.write_text(text), cases, meta, "corpus")
     for p in ic.shipped_topologies(include_large=not ctx.quick):
@@ -375,6 +433,9 @@ def oracle(ctx, scale):
         if bad:
             fails += 1
             ctx.violation("generated file: " + "; ".join(bad[:3]), {"kind": "itp_text", "text": ic.read_text(path)}, key="roundtrip")
+    nh = ctx.n(25, 200) * scale
+    fails += check_history(ctx, rs, nh)
+    S["same_path_histories_x%d" % scale] = nh
     for p in ic.shipped_topologies(include_large=True):
         bad = oracle_file(p)
         hist["shipped"] = hist.get("shipped", 0) + 1
@@ -390,6 +451,8 @@ def replay(ctx, obj):
     r = obj["replay"]
     if r.get("kind") == "itp_text":
         bad = oracle_file(ic.write_text(r["text"]))
+    elif r.get("kind") == "history":
+        bad = replay_history(r["texts"])
     elif r.get("kind") == "itp_path":
         bad = oracle_file(r["path"])
     else:
